@@ -571,7 +571,8 @@ func (c *Compiler) mapKeyCode(typ *runtime.Type) (Code, error) {
 	case reflect.Ptr:
 		return c.ptrCode(typ)
 	case reflect.String:
-		return c.stringCode(typ, false)
+		// a key is always written as a string, a json.Number key too
+		return c.stringCode(runtime.Type2RType(reflect.TypeOf("")), false)
 	case reflect.Int:
 		return c.intStringCode(typ)
 	case reflect.Int8:
